@@ -23,6 +23,11 @@ def grid(lo, hi, tier):
             for s in (1, -1):
                 vals.add(s * (2 ** k) + d)
     vals.update(range(0, 5001 if tier == "quick" else 20001))
+    # binade boundaries of the value in SECONDS (where the spacing of doubles changes): 2^k s + a few ms
+    for k in range(0, 44):
+        for d in range(-3, 40):
+            vals.add(s * 0 + (2 ** k) * 1000 + d)
+            vals.add(-((2 ** k) * 1000 + d))
     for c in (2 ** 53, -(2 ** 53), 10 ** 15, 253402300799999, 2 ** 31, -(2 ** 31)):
         vals.update(range(c - 50, c + 51))
     vals.update((lo, lo + 1, hi - 1, hi))
